@@ -166,7 +166,7 @@ def gen_plan(seed, tier):
       seed, tier, n_ops=(3, 9), dmax=8, pre_p=0.15, extras_p=0.0,
       weights=dict(query=4, refit=30, threshold=0, calibrate=0, handout=0, mutate=0,
                    restart=5, clone=3, ambient=8, eigsh=10, set_nondata=3, failfit=6,
-                   fault=0, new=12, interrupt=6), crash_sweep_p=0.05)
+                   fault=0, new=12, interrupt=6), crash_sweep_p=0.05, int_dtype_p=0.12)
 
 
 def run_plan(plan):
